@@ -9,6 +9,7 @@ CLAIMS = {
  'C11': ('proof', 'the validity / formatting guard layer every value passes through: is_valid_date == calendar validity, safe_create_* yield a valid datetime or the min-value marker, formatters produce well-formed YYYY-MM-DD / HH:MM:SS, to_pm stays within 00..23', 'value construction sites in base_*period.py are not individually under contract'),
  'C14': ('proof', 'per grammar alternative of the TIMEX datatype: the canonical string built from in-range fields parses (real TimexParsing/TimexRegex code, patterns matched by a structural regex model) to exactly those fields and formats back to the identical string; non-canonical accepted spellings re-parse to the same fields and formatting is idempotent; from_date / from_date_time / from_time give the canonical TIMEX', 're.match for the anchored TimexRegex patterns is modelled by pyvc/rxstruct.py over structured strings (validated against the real engine); str(Decimal) uninterpreted+injective and assumed amount-shaped; (start,end,duration) range strings not covered; known findings KF-C14-1/2'),
  'C15': ('proof', 'pre/postconditions on the real TimexResolver / TimexRangeResolver / TimexDateHelpers / TimexValue / TimexHelpers / TimexConstraintsHelper functions incl. loop invariant + termination for dates_matching_day and collapse for up to 3 ranges', 'Decimal as real; TIMEX string parsing (TimexRegex) outside these contracts; collapse/inner_collapse for list length <= 3 (the property quantifies over 1-3 constraints)'),
+ 'C17': ('proof', 'map_to_nearest_language proved over a case split of all culture strings (supported codes in every letter case: closed; each listed language with an arbitrary region; every proper prefix of a language; any other language word) and the ModelFactory cache contracts (a request never returns a model built for another key, cached entries are never re-bound, fallback only to en-us, ValueError exactly when nothing resolves)', 'str.lower/strip modelled as identity on lower-case ASCII words; culture strings of the form word or word-word; the cache modelled with two arbitrary pre-existing entries and two constructors; Recognizer.get_model composition (target culture default) by inspection; uniqueness of (type, culture) registrations across recognisers not checked here'),
 }
 FIXED_NA = {'C18': "equality of two concrete artefacts decided only by running the generator (ruamel.yaml absent); not a contract over a function's inputs (DESIGN section 8)",
             'C19': 'finite example table decided by executing regex engines: testing, not a contract (DESIGN section 8)'}
